@@ -116,10 +116,16 @@ type AEAD struct {
 	Key   []byte
 	NSize int
 	Name  string
+	TSize int // tag size when truncated (GCM with 12..15 byte tags); 0 means the full 16 bytes
 }
 
 func (a *AEAD) NonceSize() int { return a.NSize }
-func (a *AEAD) Overhead() int  { return 16 }
+func (a *AEAD) Overhead() int {
+	if a.TSize != 0 {
+		return a.TSize
+	}
+	return 16
+}
 
 // sealed: every (key, nonce, aad, ciphertext) produced by Seal on this path
 type sealed struct {
@@ -149,6 +155,9 @@ func (a *AEAD) Open(dst, nonce, ciphertext, additionalData []byte) ([]byte, erro
 	if len(nonce) != a.NSize {
 		panic("crypto/cipher: incorrect nonce length given to " + a.Name)
 	}
+	if a.TSize != 0 {
+		return a.openTruncated(dst, nonce, ciphertext, additionalData)
+	}
 	if len(ciphertext) < 16 {
 		return nil, ErrOpen
 	}
@@ -171,6 +180,23 @@ func (a *AEAD) Open(dst, nonce, ciphertext, additionalData []byte) ([]byte, erro
 	return append(dst, pt...), nil
 }
 
+// openTruncated: a truncated tag is a prefix of the full tag (NIST SP 800-38D): the message opens iff a sealed record
+// of the full-tag instance has the same key, nonce, associated data and body and its tag starts with the given one.
+func (a *AEAD) openTruncated(dst, nonce, ciphertext, additionalData []byte) ([]byte, error) {
+	if len(ciphertext) < a.TSize {
+		return nil, ErrOpen
+	}
+	n := len(ciphertext) - a.TSize
+	for _, s := range sealedSet {
+		if s.name == a.Name && len(s.ct) == n+16 && len(s.aad) == len(additionalData) &&
+			zzverif.EqBytes(s.key, a.Key) && zzverif.EqBytes(s.nonce, nonce) && zzverif.EqBytes(s.aad, additionalData) &&
+			zzverif.EqBytes(s.ct[:n+a.TSize], ciphertext) {
+			return append(dst, s.pt...), nil
+		}
+	}
+	return nil, ErrOpen
+}
+
 // Strict: only ciphertexts sealed on this path open (unforgeability as an assumption, for tamper harnesses)
 var Strict bool
 
@@ -183,6 +209,32 @@ func NewGCM(b cipher.Block) (cipher.AEAD, error) {
 		return nil, errors.New("stub NewGCM: unknown block implementation")
 	}
 	return &AEAD{Key: blk.Key, NSize: 12, Name: "GCM"}, nil
+}
+
+func NewGCMWithTagSize(b cipher.Block, tagSize int) (cipher.AEAD, error) {
+	if tagSize < 12 || tagSize > 16 {
+		return nil, errors.New("cipher: incorrect tag size given to GCM")
+	}
+	a, err := NewGCM(b)
+	if err != nil {
+		return nil, err
+	}
+	if tagSize != 16 {
+		a.(*AEAD).TSize = tagSize
+	}
+	return a, nil
+}
+
+func NewGCMWithNonceSize(b cipher.Block, size int) (cipher.AEAD, error) {
+	if size <= 0 {
+		return nil, errors.New("cipher: the nonce can't have zero length")
+	}
+	a, err := NewGCM(b)
+	if err != nil {
+		return nil, err
+	}
+	a.(*AEAD).NSize = size
+	return a, nil
 }
 
 func NewChaCha(key []byte) (cipher.AEAD, error) {
@@ -276,6 +328,8 @@ func b64(src []byte) []byte {
 		} else {
 			ok = zzverif.And(ok, raw[i] != '=')
 		}
+		// no character of the alphabet is a line break (the header format relies on it)
+		ok = zzverif.And(ok, raw[i] != '\n')
 	}
 	zzverif.Assume(ok)
 	return raw
